@@ -662,7 +662,7 @@ def run(rep):
     value_inputs = 0
     for prof in PROFILES:
         outs = harness(dcases, prof)
-        st = {"value": 0, "error": 0, "panic": 0, "rt_differs": 0, "rt_rejected": 0}
+        st = {"value": 0, "error": 0, "panic": 0, "rt_differs": 0, "rt_rejected": 0, "semantically_verified": 0}
         for c, o in zip(dcases, outs):
             if "crash" in o or "skipped" in o:
                 if "crash" in o:
@@ -675,6 +675,8 @@ def run(rep):
                 findings.append({"what": f"decoding / re-encoding {c['t']} panicked in the {prof} profile: {o.get('msg')} [{c['label']}]",
                                  "failing_input": {"case": c, "profile": prof, "impl": o}})
             elif r == "value":
+                if "verify" in o:
+                    st["semantically_verified"] += 1
                 if prof == "dev":
                     value_inputs += 1
                 if o.get("rt") == "panic":
@@ -878,7 +880,8 @@ def run(rep):
         "rule": "decode fuzz: for every registered decoder (all public ProtoFmt types of zksync_protobuf/roles + the network crate's private wire types through verif::decode_named) "
                 "2-4 valid seeds from the crates' own generators, then (a) every integer field of the seed set to each of 24 boundary values, pairs of integer fields set to pairs of 14 boundary values (messages with 2-8 integer fields), non-minimal varint, empty packed record, "
                 "every field removed / duplicated / emptied, repeated fields x40, byte strings shortened / extended / 300 random bytes, every length prefix set to +-1, 0, 2^31, 2^32, 2^64-1, (b) truncations and single-byte mutations, "
-                "(c) group / LEN nesting to depth 20000, (d) random bytes; run in the dev (overflow checks) and release profile; each decoded value is re-encoded (canonical) and decoded again. "
+                "(c) group / LEN nesting to depth 20000, (d) random bytes; run in the dev (overflow checks) and release profile; each decoded value is re-encoded (canonical) and decoded again, and decoded consensus messages / certificates / blocks are additionally run through their verify() (against a committee of the size their signer bitmap claims) and view_number(). "
+                "(mux.Handshake is kept in a HashMap, so its re-encoding order - the rt_differs count - varies from run to run.) "
                 "distinct_nontrivial = distinct (type, bytes) pairs that reached the decoder and returned a value or an error, plus distinct model-correspondence inputs, plus header ranges of the exhaustive sweep. "
                 "model correspondence: boundary grids for Duration/Timestamp/SocketAddr/BitVector/RateLimit/Genesis/justification view/queue selection/recv_proto, random mux frame scripts; "
                 "exhaustive: all 65536 mux headers x stream-table configurations on the real Mux::run",
@@ -897,7 +900,7 @@ def run(rep):
                    "recv_proto (allocation <= max_size, rejection before the body is read), the mux header dispatch and frame loop for every byte string. "
                    "NOT proved, only fuzzed: the generated prost decoders and the ProtoFmt::read impls of the other message types, key / signature decoding (blst), snow (noise handshake and transport), "
                    "tokio, allocation failure, mux_recv_proto on the real transient stream (same steps as recv_proto in the model, no hook to drive it directly), "
-                   "the replica handlers on well-signed extreme messages beyond view()/selection (covered by C04/C05/C16 models), and the accept loop.",
+                   "the replica state machine handlers on well-signed extreme messages (only decode + verify() + view_number() + the queue selection function are exercised here; the handlers are modelled under C04/C05/C16), and the accept loop.",
     })
     rep.assumptions += [
         "panic-freedom of library code below the modelled functions (prost, quick-protobuf, snow, blst, bit-vec, time) is assumed in the theorems and exercised by the fuzz",
